@@ -56,6 +56,18 @@ type numericSpec struct {
 func genNumericScenario(c *Ctx, rt *rapid.T, sp *numericSpec) *Scenario {
 	g := G{rt}
 	w := GenWorld(g, sp.gen)
+	if sp.prop == "C01" && g.Rare(1, 10, "manyrefs") {
+		// more roots than any batch or buffer between the reference listing
+		// and rev-list's stdin holds, each leading to a commit of its own
+		n := g.Int(66, 200, "nmanyrefs")
+		if !refConflicts(refSet(w), "refs/heads/many") {
+			for i := 0; i < n; i++ {
+				cs := CommitSpec{Tree: EmptyTreeID, Author: ident("A", int64(1100000000+i), "+0000"), Committer: ident("C", int64(1100000000+i), "+0000"), Message: fmt.Sprintf("many %d\n", i)}
+				co := w.Add(NewObject(KCommit, EncodeCommit(cs)))
+				w.Refs = append(w.Refs, Ref{Name: fmt.Sprintf("refs/heads/many/%04d", i), OID: co.ID})
+			}
+		}
+	}
 	gm := NewGroupModel()
 	refopts := GenRefOpts(g, w, gm, sp.inv)
 	var roots []RootArg
